@@ -28,6 +28,21 @@ func c20entries(c *core.Ctx) []*ssa.Function {
 	} {
 		out = append(out, mustFunc(c, e[0], e[1]))
 	}
+	// the per-UE context's own methods (capability IEs, key derivation, counters): called for different UEs side by side
+	seen := map[*ssa.Function]bool{}
+	for _, f := range out {
+		seen[f] = true
+	}
+	if sp := c.P.SSAPkg(pTglib); sp != nil {
+		var ms []*ssa.Function
+		for _, f := range allFuncsOf(sp) {
+			if f.Signature.Recv() != nil && strings.HasSuffix(f.Signature.Recv().Type().String(), "tglib.RanUeContext") && len(f.Blocks) > 0 && !seen[f] {
+				ms = append(ms, f)
+			}
+		}
+		sort.Slice(ms, func(i, j int) bool { return ms[i].Name() < ms[j].Name() })
+		out = append(out, ms...)
+	}
 	return out
 }
 
@@ -105,7 +120,7 @@ func usesOfGlobal(f *ssa.Function, collect func(g *ssa.Global, u globalUse)) {
 }
 
 func c20(c *core.Ctx) map[string]interface{} {
-	c.Explanation = "Static shared-state analysis for concurrent use of the codecs and security functions (C20). Decided: (R20.state) over the VTA whole-program call graph, every package-level variable of the repository's own packages that any function reachable from the listed entry points (NGAP/APER/NAS encode+decode, NASEncode/NASDecode, key derivation, NASEncrypt/NASMacCalculate) touches is classified; a variable is accepted only if it is immutable after initialisation: written only by package initialisers, never address-escaping to a callee, and of a kind whose loaded value cannot be mutated through (scalars, arrays/slices of scalars that are only indexed, reflect.Type descriptors, logrus entries which are internally locked). Any other reachable package-level variable - including synchronised caches such as sync.Map or hand-rolled one-entry caches - is shared mutable state and is reported with its writers/escapes; (R20.go) the repository's own packages start no goroutine, use no channel and no sync primitive (so there is no internal ordering to argue about); (R20.arg) informational: callee-side writes to caller-owned buffers. For code without goroutines and locks, absence of shared mutable state reachable from the entry points is the whole content of 'race-free and schedule-independent for different UEs'. (R13.pure) message construction shares no buffer between messages except the announced PLMN octets (which the encoder only reads): the encoder masks the padding bits of a BIT STRING in the caller's buffer, so a BIT STRING buffer shared between the messages of two UEs would be written concurrently inside the codec. (R20.msg) no function of tglib stores through a *nas.Message parameter (callers of different UEs may hand the same UE-independent message to the protection at once). NOT decided: races inside third-party dependencies (logrus, standard library)."
+	c.Explanation = "Static shared-state analysis for concurrent use of the codecs and security functions (C20). Decided: (R20.state) over the VTA whole-program call graph, every package-level variable of the repository's own packages that any function reachable from the listed entry points (NGAP/APER/NAS encode+decode, NASEncode/NASDecode, key derivation, NASEncrypt/NASMacCalculate, and every method of the per-UE context tglib.RanUeContext) touches is classified; a variable is accepted only if it is immutable after initialisation: written only by package initialisers, never address-escaping to a callee, and of a kind whose loaded value cannot be mutated through (scalars, arrays/slices of scalars that are only indexed, reflect.Type descriptors, logrus entries which are internally locked). Any other reachable package-level variable - including synchronised caches such as sync.Map or hand-rolled one-entry caches - is shared mutable state and is reported with its writers/escapes; (R20.go) the repository's own packages start no goroutine, use no channel and no sync primitive (so there is no internal ordering to argue about); (R20.arg) informational: callee-side writes to caller-owned buffers. For code without goroutines and locks, absence of shared mutable state reachable from the entry points is the whole content of 'race-free and schedule-independent for different UEs'. (R13.pure) message construction shares no buffer between messages except the announced PLMN octets (which the encoder only reads): the encoder masks the padding bits of a BIT STRING in the caller's buffer, so a BIT STRING buffer shared between the messages of two UEs would be written concurrently inside the codec. (R20.msg) no function of tglib stores through a *nas.Message parameter (callers of different UEs may hand the same UE-independent message to the protection at once). NOT decided: races inside third-party dependencies (logrus, standard library)."
 	c.Assumptions = []string{"logrus.Entry/Logger are safe for concurrent use (internal mutex)", "reflect.Type values are immutable", "distinct UEs use distinct RanUeContext values and distinct message buffers (the property's own hypothesis)"}
 	r20state(c)
 	r20go(c)
